@@ -40,6 +40,7 @@ var c04Chunks = []int{1, 1, 2, 3, 7, 1000}
 func genC04(t *rapid.T) C04Case {
 	cfg := kit.DefaultTreeGen()
 	cfg.CorruptPct = 2
+	cfg.ExtraCorruptions = []string{"timestamp-future"}
 	cfg.BadIntentPct = 1
 	cfg.ForkPct = 28
 	cfg.Kinds = []string{"pay", "sf", "form", "fcop", "fcop", "attest", "arb"}
